@@ -587,10 +587,55 @@ def check_d(ck, repo):
     ck.holds("C16.d", pi, "name lists stored in records are re-iterable", f"{m} stores under 'inputs' / 'outputs' examined; read sites: {reads}")
 
 
+def check_graph_attributes(ck, repo):
+    """C16.c (graph attributes): `name=value;` lines written without quotes are well-formed DOT only
+    for values that are DOT identifiers or numbers.  The names written that way come from a closed
+    list in the source (whose documented values are such), never from whatever keys the caller
+    passed: `size="8,6"`, `bgcolor="#eee"`, `label="a b"` unquoted are syntax errors or stray nodes."""
+    fi = repo.func("mlinsights.plotting.visualize", "pipeline2dot")
+    kw = fi.node.args.kwarg.arg if fi.node.args.kwarg else None
+    n = 0
+    for c in own_nodes(fi.node):
+        if not (isinstance(c, ast.Call) and isinstance(c.func, ast.Attribute) and c.func.attr == "append" and c.args and isinstance(c.args[0], ast.JoinedStr)):
+            continue
+        js = c.args[0]
+        txt = "".join(v.value if isinstance(v, ast.Constant) else "{}" for v in js.values)
+        if not re.match(r"^\s*\{\}=\{\};?\s*$", txt):
+            continue
+        name_e = next(v.value for v in js.values if isinstance(v, ast.FormattedValue))
+        n += 1
+        if isinstance(name_e, ast.Constant):
+            continue
+        loops = [p_ for p_ in _parents(c) if isinstance(p_, ast.For) and isinstance(p_.target, ast.Name) and p_.target.id == src_of(name_e)]
+        if not loops:
+            ck.unknown("C16.c", fi, c, f"the attribute name {src_of(name_e)} written without quotes is not a constant nor a loop variable")
+            continue
+        it = loops[0].iter
+        if isinstance(it, (ast.List, ast.Tuple)) and all(isinstance(e_, ast.Constant) for e_ in it.elts):
+            continue
+        srcs = [src_of(it)]
+        if isinstance(it, ast.Name):
+            srcs += [src_of(s_) for s_ in own_nodes(fi.node) if isinstance(s_, (ast.Assign, ast.AugAssign, ast.Expr)) and re.search(r"\b%s\b" % re.escape(it.id), src_of(s_)) and s_.lineno < loops[0].lineno]
+        from_caller = [t for t in srcs if kw and re.search(r"\b(%s|options)\b" % re.escape(kw), t) and not re.match(r"^\s*options\s*=\s*\{", t)]
+        if from_caller:
+            ck.violated("C16.c", fi, c, f"graph attributes are written without quotes for names taken from the caller's options ({from_caller[0][:70]}): a value that is not a DOT identifier or a number (size=\"8,6\", a colour #rrggbb, a label with a space) gives a graph that is not well-formed DOT")
+        else:
+            ck.unknown("C16.c", fi, c, f"the names of the attributes written without quotes come from {srcs[0][:50]}, not from a literal list")
+    ck.holds("C16.c", fi, f"{n} unquoted `name=value;` lines", "unquoted graph attributes are a closed list of names", nontrivial=False)
+
+
+def _parents(n):
+    p = getattr(n, "_parent", None)
+    while p is not None:
+        yield p
+        p = getattr(p, "_parent", None)
+
+
 def run(ck):
     repo = ck.repo
     for k, v in RULES.items():
         ck.rule(k, v)
+    check_graph_attributes(ck, repo)
     check_a(ck, repo)
     check_b(ck, repo)
     check_c(ck, repo)
